@@ -118,6 +118,7 @@ pub fn worker(a: &[String]) -> i32 {
             }
         });
     }
+    let selftest = std::env::var("QEV_FUZZ_SELFTEST").is_ok();
     for idx in start..end {
         let st = &stmts[idx];
         let sql = st["sql"].as_str().unwrap();
@@ -138,11 +139,28 @@ pub fn worker(a: &[String]) -> i32 {
             PANICS.lock().unwrap().clear();
             *cur_schema.lock().unwrap() = sname.clone();
             current.store(idx as i64, Ordering::SeqCst);
-            started.store(now_ms(), Ordering::SeqCst);
-            let res = std::panic::catch_unwind(std::panic::AssertUnwindSafe(|| rt.block_on(async { ctx.sql(sql).await })));
+            let t_begin = now_ms();
+            started.store(t_begin, Ordering::SeqCst);
+            let res = std::panic::catch_unwind(std::panic::AssertUnwindSafe(|| {
+                if selftest {
+                    // ./check C29 --selftest: faults injected by the HARNESS, to show that each kind is observed
+                    if sql.contains("SELFTEST_PANIC") {
+                        panic!("selftest panic");
+                    } else if sql.contains("SELFTEST_ABORT") {
+                        std::process::abort();
+                    } else if sql.contains("SELFTEST_OVERFLOW") {
+                        std::hint::black_box(deep(1));
+                    } else if sql.contains("SELFTEST_HANG") {
+                        loop {
+                            std::thread::sleep(std::time::Duration::from_secs(1));
+                        }
+                    }
+                }
+                rt.block_on(async { ctx.sql(sql).await })
+            }));
             started.store(0, Ordering::SeqCst);
             let recorded: Vec<(String, String)> = PANICS.lock().unwrap().clone();
-            let mut o = json!({"i": idx, "h": st["h"], "s": sname});
+            let mut o = json!({"i": idx, "h": st["h"], "s": sname, "ms": now_ms().saturating_sub(t_begin)});
             match res {
                 Err(_) => {
                     o["k"] = json!("panic");
@@ -171,6 +189,15 @@ pub fn worker(a: &[String]) -> i32 {
     }
     current.store(-1, Ordering::SeqCst);
     0
+}
+
+#[inline(never)]
+fn deep(n: u64) -> u64 {
+    let pad = [n; 64];
+    if n == u64::MAX {
+        return 0;
+    }
+    std::hint::black_box(pad)[0] + deep(n + 1)
 }
 
 pub fn one(a: &[String]) -> i32 {
